@@ -21,6 +21,7 @@ mod corr_deadline;
 mod front;
 mod corr_chunks;
 mod cli;
+mod io;
 mod meta_oracle;
 mod raw_api;
 
@@ -127,6 +128,7 @@ fn main() {
         "corr-chunks" => corr_chunks::corr(&mut ctx),
         "corr-cli" => cli::corr(&mut ctx),
         "oracle-cli" => cli::oracle(&mut ctx),
+        "corr-io" => io::corr(&mut ctx),
         "oracle-meta" => meta_oracle::oracle(&mut ctx),
         "corr-raw" => raw_api::corr(&mut ctx),
         "oracle-c11" => raw_api::oracle(&mut ctx),
